@@ -5,7 +5,7 @@ import sys
 
 HERE = os.path.dirname(os.path.dirname(os.path.abspath(__file__)))
 sys.path.insert(0, HERE)
-from tools.manifest_data import CHECKS, NOT_APPLICABLE, SOURCE_COMMITS  # noqa
+from tools.manifest_data import CHECKS, EXTRA, NOT_APPLICABLE, SOURCE_COMMITS  # noqa
 
 m = {
     "version": 1,
@@ -39,7 +39,7 @@ for c in CHECKS:
             "evidence_file": f"/verif/evidence/{pid}.json",
             "replay_cmd_template": f"./check {pid} --replay {{path}}",
             "engine": "sim",
-            "level_claimed": {"category": c["level"], "text": c["text"], "design_ref": c.get("design_ref", "DESIGN.md section 7")},
+            "level_claimed": {"category": c["level"], "text": c["text"] + EXTRA.get(pid, ""), "design_ref": c.get("design_ref", "DESIGN.md section 7")},
             "level_note": c["note"],
             "technique": c.get("technique", "deterministic simulation with fault injection (seeded schedule/fault search, reference oracle over the recorded history)"),
         }
